@@ -595,6 +595,10 @@ def emit_p(inst, real):
     grow = inst.get("grow", False)
     scratch = inst.get("scratch_extra", 0)
     loops = [taps, sw, sh, dw, dh, pw, ph, nc, spare * nc]
+    if vk is not None:
+        # the vertical kernels loop over the components of a destination row (and over 16/8/4-wide chunks)
+        rowc = max(dw, sw if (hk is not None and ct == "u8") else dw) * nc
+        loops += [rowc, 16 if rowc >= 16 else 0]
     if inst.get("src", ("typed_ref",))[0] == "owned":
         loops.append(sw * sh)
     if grow:
@@ -827,6 +831,9 @@ def gen_c12(tier, seed):
     # SuperSampling whose nearest-neighbour intermediate happens to have the destination size
     p_add(insts, "C12", "ss_intermediate_is_dst_u8", "quick", "U8", "None", 4, 4, 2, 2, None, ("SuperSampling", "Box", 1), expect="nearest")
     p_add(insts, "C12", "ss_width_same_u8", "quick", "U8", "None", 2, 6, 2, 2, None, ("SuperSampling", "Box", 1))
+    # crop sizes that are NOT equal to the destination size, only close to it: the pass must run
+    p_add(insts, "C12", "near_width_u8", "quick", "U8", "None", 4, 2, 3, 2, (1, 0, 2.6, 2), ("Convolution", "Bilinear"))
+    p_add(insts, "C12", "almost_width_u8", "quick", "U8", "None", 4, 2, 3, 2, (1, 0, 2.9999999999999996, 2), ("Convolution", "Bilinear"))
     p_add(insts, "C12", "height_same_u16_crop", "quick", "U16", "None", 5, 4, 2, 2, (1, 1, 4, 2), ("Interpolation", "Bilinear"))
     if tier == "thorough":
         k = 0
@@ -985,6 +992,9 @@ def emit_rel(inst, real):
     kind = inst["kind"]
     extra = inst.get("scratch_extra", 0)
     loops = [taps, sw, sh, dw, dh, nc, nsrc // nc, ndst]
+    if vk is not None:
+        rowc = max(dw, sw) * nc
+        loops += [rowc, 16 if rowc >= 16 else 0]
     if kind == "reuse":
         loops += [conv_bytes, alpha_bytes]
     unwind = max(loops) + 2
@@ -1005,6 +1015,8 @@ def emit_rel(inst, real):
     b.append("let mut da: [%s; %d] = kani::any();" % (ct, ndst))
     b.append("let mut db: [%s; %d] = kani::any();" % (ct, ndst))
     scratch = "resizer_with_scratch::<%d, %d, 0>(CpuExtensions::%s)" % (alpha_bytes + extra, conv_bytes + extra, inst["cpu"])
+    if inst.get("short_conv"):
+        scratch = "resizer_with_short_conv::<%d, %d, %d>(CpuExtensions::%s)" % (alpha_bytes + extra, conv_bytes + extra, inst["short_conv"], inst["cpu"])
     if kind == "alpha_hidden":
         b.append("let c: [%s; %d] = kani::any();" % (ct, nsrc))
         b.append("let b = hide_under_zero_alpha(&a, &c, %d);" % nc)
@@ -1105,8 +1117,11 @@ def gen_c09(tier, seed):
     add("alpha_u8x2_crop_v", "quick", "U8x2", "None", 1, 10, 1, 1, (0, 3, 1, 4))
     # two-pass without alpha: intermediate-pass scratch, exact and over-sized
     add("conv2_u8_exact", "quick", "U8", "None", 3, 3, 2, 2, None, alpha=False)
-    add("conv2_u16_larger", "quick", "U16", "None", 3, 3, 2, 2, None, alpha=False, scratch_extra=3)
+    add("conv2_u8_larger", "quick", "U8", "None", 3, 3, 2, 2, None, alpha=False, scratch_extra=3)
+    # scratch whose length is one byte short of what is needed while its capacity is large enough
+    add("conv2_u8_len_lt_capacity", "quick", "U8", "None", 3, 3, 2, 2, None, alpha=False, short_conv=1)
     if tier == "thorough":
+        add("conv2_u16_larger", "thorough", "U16", "None", 3, 3, 2, 2, None, alpha=False, scratch_extra=3, mem=20, t=3600)
         add("alpha_u16x2_crop_h", "thorough", "U16x2", "None", 10, 1, 1, 1, (3, 0, 4, 1))
         add("conv2_u8x3_larger", "thorough", "U8x3", "None", 3, 3, 2, 2, None, alpha=False, scratch_extra=5)
         add("alpha_u8x4_sse4", "thorough", "U8x4", "Sse4_1", 3, 2, 2, 1, None)
